@@ -1,12 +1,14 @@
 import Chewing.Model.Composition
 import Chewing.Model.Dict
+import Chewing.Model.Syllable
 /-!
 Model of `src/conversion/chewing.rs` (`ChewingEngine`; `FuzzyChewingEngine` is the same engine with
 `LookupStrategy::FuzzyPartialPrefix`, `src/conversion/fuzzy.rs`).
 
 Function by function as coded; the dictionary is abstract (`Dict` = the lookup function).
 
-* Rust panics are `Outcome.panic` values: the `unwrap()` on "no path" (F02), `usize` subtraction
+* Rust panics are `Outcome.panic` values: the `unwrap()` on "no path" (F02: unreachable on a valid
+  composition since `find_best_phrase` falls back to the spelling of a word-less syllable), `usize` subtraction
   underflow (`selection.end - selection.start`, `start * len + end - 1`), slice index out of range,
   `debug_assert!`s, `i32`/`u32` overflow of the scoring rules (debug profile: overflow checks on).
 * Loops: `for` loops are structural recursion over the index list; the two `while` loops of
@@ -103,9 +105,18 @@ def forcedSel (c : Composition) (s e : Nat) : Option Phrase :=
   (c.selections.find? fun sel => decide (s = sel.start) && decide (e = sel.stop)).map
     fun sel => { text := sel.text, freq := 0, lastUsed := none }
 
-/-- `ChewingEngine::find_best_phrase(dict, start, &com.symbols[start..end], com)` -/
+/-- the fallback of a one-syllable range without any acceptable word and without a forced selection:
+    `Phrase::new(syllable.to_string(), 0)`, the syllable's own spelling (what `SimpleEngine` shows) -/
+def spelledSyl : List Sym → Option Phrase
+  | [.syl k] => some { text := spell k, freq := 0, lastUsed := none }
+  | _ => none
+
+/-- `ChewingEngine::find_best_phrase(dict, start, &com.symbols[start..end], com)`: an empty range is
+    not an interval (whatever is stored under the empty key, F39); a one-syllable range always has a
+    phrase — the best word, a forced selection, or the spelling (F02 / F03 repair) -/
 def findBestPhrase (d : Dict) (strat : Strategy) (c : Composition) (s e : Nat) : Outcome (Option PPhrase) :=
-  if hasBreakInside c s e then .ok none
+  if (slice c s e).isEmpty then .ok none
+  else if hasBreakInside c s e then .ok none
   else if selConflict c s e then .ok none
   else
     match slice c s e with
@@ -115,7 +126,7 @@ def findBestPhrase (d : Dict) (strat : Strategy) (c : Composition) (s e : Nat) :
       else
         match pickBest c.selections s e (d.lookup (sylPrefix syms) strat) none with
         | .ok (some p) => .ok (some (.phrase p))
-        | .ok none => .ok ((forcedSel c s e).map .phrase)
+        | .ok none => .ok (((forcedSel c s e).or (spelledSyl syms)).map .phrase)
         | .panic m => .panic m
         | .outOfFuel => .outOfFuel
 
